@@ -19,9 +19,9 @@ import (
 // ---------------------------------------------------------------- real rows
 
 var (
-	baseTime = time.Date(2020, 3, 1, 12, 0, 0, 0, time.UTC)
-	res1s    = time.Second
-	fieldA   = core.NewField("a", expr.SUM("a"))
+	baseTime   = time.Date(2020, 3, 1, 12, 0, 0, 0, time.UTC)
+	res1s      = time.Second
+	fieldA     = core.NewField("a", expr.SUM("a"))
 	mockFields = core.Fields{core.PointsField, fieldA}
 )
 
